@@ -67,6 +67,18 @@ def run(tier, seed, replay=None):
         ("a = make([][]int64, 2); b = a[0:1]; try { b += [[1], [\"x\"]] } catch e { }; [len(a[0]), len(a[1])]", "[i:0,i:0]", "a failing append of lists to a view of a [][]int64"),
         ("a = make([]int64, 3); b = a[0:1]; b += [7, 8.9]; [a, b]", "[other:[]int64:[0 7 8],other:[]int64:[0 7 8]]", "a typed append that succeeds writes through the shared capacity as Go's append does"),
     ]
+    # a list unpacked into several targets hands each target the value the element had then
+    detached += [
+        ("a = [1, 2]; p, q = a; a[0] = 7; a[1] = 8; [p, q]", "[i:1,i:2]", "names bound by unpacking a list hold copies of its elements"),
+        ("a = [1, 2]; var p, q = a; a[0] = 7; a[1] = 8; [p, q]", "[i:1,i:2]", "var names bound by unpacking a list hold copies of its elements"),
+        ("a = [nil, 2]; p, q = a; a[0] = 7; p", "nil", "a nil element unpacked into a name stays nil"),
+        ("a = [nil, 2]; p = a[0]; a[0] = 7; p", "nil", "a nil element assigned to a name stays nil"),
+        ("a = make([]int64, 2); p, q = a; a[0] = 7; a[1] = 8; [p, q]", "[i:0,i:0]", "names bound by unpacking a typed slice hold copies"),
+        ("a = make([]int64, 2); var p, q = a; a[0] = 7; [p, q]", "[i:0,i:0]", "var names bound by unpacking a typed slice hold copies"),
+        ("a = [1, 2]; b = [0, 0]; b[0], b[1] = a; a[0] = 7; b", "[i:1,i:2]", "elements assigned by unpacking a list are copies"),
+        ("a = [[1], 2]; p, q = a; p[0] = 7; a[0]", "[i:7]", "a list element unpacked into a name is still a reference to that list"),
+        ("func f() { return [1, 2] }; a = f(); p, q = a; a[0] = 7; p", "i:1", "unpacking the list a function returned"),
+    ]
     expectations = [{"src": src, "field": "result", "want": want, "why": why} for src, want, why in detached]
     expectations += [{"src": p["src"], "field": "trace", "want": p["want"],
                      "why": "the observations of a container history equal those of the same operations on Go values"} for p in data["untyped"]]
